@@ -420,6 +420,14 @@ func c06Loopback(c *Ctx) {
 				default:
 					cfg.Bind = bindKind
 				}
+				if bindKind == "fixed" && i%4 == 1 && !effTCP {
+					// round 9: the fixed bind port has the same number as the broadcast address's port (another local address, so both
+					// can be bound): still "from the configured bind address" (seeded C06-V: the broadcast paths fall back to port 0)
+					bindKind = "fixed-same-port-as-broadcast"
+					fixedPort = f.bcast.Port
+					cfg.Bind = fmt.Sprintf("127.0.0.2:%d", fixedPort)
+					c.Res.Count("loopback:cases-with-bind-port-equal-to-broadcast-port", 1)
+				}
 				// other configured controllers (must stay silent)
 				for j := 0; j < 3; j++ {
 					if j != k && r.Chance(0.7) {
